@@ -57,6 +57,12 @@ var c07Reqs = []c07Req{
 	// literal variants of one shape: under the normalising cache they share a plan
 	// (same text length: with Normalize on, error locations of a shared plan are
 	// those of the request that created it - recorded under C06 as F-C06-5)
+	// subscriptions on the shared schema (graphql.Subscribe: the set-up path with
+	// its own field collection and argument coercion, the forwarding goroutine and
+	// one nested execution per event); always issued as "sub" operations
+	{"sub-events", `subscription { events(k:BETA, n:1) { id kind nodes(n:2) { id kind ... on A { aOnly } } u { ... on B { bOnly } ... on A { kind } } } }`, nil},
+	{"sub-vars", `subscription($k:Kind, $st:Stamp, $n:Int){ events(k:$k, st:$st, n:$n) { id kind nn { e } peer { id kind } } }`, map[string]interface{}{"k": "GAMMA", "st": "s1", "n": 1}},
+	{"sub-ticks", `subscription { ticks { s e le } }`, nil},
 	{"lit-1", `{ echo(i:1, s:"one") a { items(n:1) { n } } }`, nil},
 	{"lit-2", `{ echo(i:2, s:"two") a { items(n:2) { n } } }`, nil},
 	{"lit-3", `{ echo(i:3, s:"six") a { items(n:3) { n } } }`, nil},
@@ -112,7 +118,31 @@ func init() { Register(c07{}) }
 func (c07) ID() string               { return "C07" }
 func (c07) EnumSize(tier string) int { return 0 }
 
-var c07AllPark = []string{"resolver", "rtype", "plan.exec.start", "plan.exec.send", "plan.abstract.lock", "cache.lookup.lock", "cache.store.lock", "cache.reset.lock", "client"}
+var c07AllPark = []string{"resolver", "rtype", "plan.exec.start", "plan.exec.send", "plan.abstract.lock", "cache.lookup.lock", "cache.store.lock", "cache.reset.lock", "client", "sub.fwd.start", "sub.fwd.select"}
+
+// c07SubSource is the event source of the subscription requests: two events,
+// already waiting in a closed stream (stateless, so that several clients can
+// subscribe at once).
+func c07SubSource(p graphql.ResolveParams) (interface{}, error) {
+	c := make(chan interface{}, 2)
+	base := 0
+	if p.Info.FieldName == "ticks" {
+		base = 100
+	}
+	c <- Ev{N: base}
+	c <- Ev{N: base + 1}
+	close(c)
+	return c, nil
+}
+
+// c07Subscribe drains one subscription.
+func c07Subscribe(w *World, rq c07Req, ctx context.Context) string {
+	var all []string
+	for r := range graphql.Subscribe(graphql.Params{Schema: w.Schema, RequestString: rq.Query, VariableValues: deepCopyVars(rq.Vars), Context: ctx}) {
+		all = append(all, MarshalResult(r))
+	}
+	return "[" + strings.Join(all, ",") + "]"
+}
 
 func (p c07) Gen(seed uint64, enum int, tier string) json.RawMessage {
 	r := NewRNG(seed)
@@ -164,6 +194,9 @@ func (p c07) Gen(seed uint64, enum int, tier string) json.RawMessage {
 			if c07ReqAt(&s, req).Name == "lazy-plan-panic" {
 				kind = "plan" // this document never passes validation's literal check unharmed
 			}
+			if strings.HasPrefix(c07ReqAt(&s, req).Query, "subscription") && kind != "validate" && kind != "reset" {
+				kind = "sub"
+			}
 			cl.Ops = append(cl.Ops, C07Op{Kind: kind, Req: req})
 		}
 		s.Clients = append(s.Clients, cl)
@@ -172,6 +205,9 @@ func (p c07) Gen(seed uint64, enum int, tier string) json.RawMessage {
 		s.Faults = map[string]string{}
 		for _, wi := range work {
 			rq := c07ReqAt(&s, wi)
+			if strings.HasPrefix(rq.Query, "subscription") {
+				continue
+			}
 			paths := dryPaths(rq.Query, rq.Vars, s.Clients[0].Variant)
 			for k := 1 + r.Intn(2); k > 0 && len(paths) > 0; k-- {
 				s.Faults["R@"+paths[r.Intn(len(paths))]] = []string{FErr, FErr, FPanicStr, FNil}[r.Intn(4)]
@@ -251,6 +287,9 @@ func c07Solo(rq c07Req, op C07Op, variant uint64, world int, faults map[string]s
 		return string(b)
 	case "reset":
 		return "reset"
+	case "sub":
+		w.SubSource = c07SubSource
+		return c07Subscribe(w, rq, ctx)
 	}
 	if rq.Name == "lazy-plan-panic" {
 		doc, _ := parseDoc(rq.Query)
@@ -330,6 +369,7 @@ func (c07) Run(t TestingT, scn json.RawMessage, tape *Tape) *Outcome {
 	}
 	pan := Bubble(t, s, func() {
 		worlds := []*World{NewWorld("A"), NewWorld("B")} // cold: nothing lazily initialised by a request yet
+		worlds[0].SubSource, worlds[1].SubSource = c07SubSource, c07SubSource
 		cache = graphql.NewPlanCache(graphql.PlanCacheOptions{MaxEntries: sc.MaxEntries, Normalize: sc.Normalize})
 		// prepared plans shared by all clients of a schema (planned, not yet executed)
 		plans := map[string]*graphql.Plan{} // keyed by schema and query text (requests that differ in variables only share the plan)
@@ -418,6 +458,9 @@ func (c07) Run(t TestingT, scn json.RawMessage, tape *Tape) *Outcome {
 					case "reset":
 						cache.Reset()
 						tc.Out[key] = "reset"
+					case "sub":
+						tc.Out[key] = c07Subscribe(w, rq, ctx)
+						tc.Out["fired:subscription-drained"] = fmt.Sprint(atoiOr0(tc.Out["fired:subscription-drained"]) + 1)
 					}
 					_, fired, _, _ := rc.Snapshot()
 					for k, n := range fired {
